@@ -52,6 +52,8 @@ theorem reparse_covers_print_partial (d d' : IDoc) (h : parseDoc (printDoc d) = 
       · cases h
       split at h
       · cases h
+      split at h
+      · cases h
       · next d2 hd2 =>
         split at h
         · cases h
